@@ -441,8 +441,8 @@ func propRT(c RCase) (out pbt.Outcome) {
 		return mech(sigUWidth, "UWIDTH", "unsigned %d bits value %d exports as %q (no width in the text), which reads back as unsigned 64 bits", w, v, text)
 	case ti.kind == "float32" && rw == 32:
 		x := math.Float32frombits(uint32(v))
-		if ax := math.Abs(float64(x)); ax != 0 && ax < 1e-12 { // fewer than 9 significant digits survive %.20f
-			labels["float32:|x|<1e-12"] = true
+		if ax := math.Abs(float64(x)); ax != 0 && ax < 0x1p-43 { // %.20f keeps fewer than 9 significant digits below 1e-12; exhaustive scan: largest failing pattern is 0x29fffffe, just below 2^-43
+			labels["float32:|x|<2^-43"] = true
 			return mech(sigF32, "F32", "float32 bits 0x%08x (%g) exports as %q, which reads back as bits 0x%08x (%g)", v, x, text, rv, math.Float32frombits(uint32(rv)))
 		}
 	case ti.kind == "lq" && rw == w:
